@@ -7,6 +7,29 @@ ROOT = os.path.dirname(os.path.dirname(os.path.abspath(__file__)))
 
 # property id -> dict(text, note, technique, design_ref) for claimed checks
 CLAIMED = {
+    'C08': dict(
+        text='Machine-checked: for EVERY well-formed message (Spec.read: no NUL, header block of fields, one empty line, body not starting '
+             'with a newline - the domain the property names) and every sequence of header settings (SetOk: no newline/NUL in the value, no '
+             'white space or colon in the name) the bytes produced by the Lean transcription of message_parse_headers / message_set_header / '
+             'message_write satisfy Spec.rewriteOk: same body, same other fields with raw values incl. folding and order, each set name exactly '
+             'once with its last value, replaced in place (C08_rewrite_preserves, C08_copy_identity, C08_parse, C08_rewrite_stable; ~2500 lines '
+             'of proofs). The same predicate is evaluated on the bytes the real message_write produces (ASan harness, memfd) for generated '
+             'messages and setting sequences, and the real table/lookup/second write are compared with the model.',
+        note='Trusted: Lean kernel, Spec/Message.lean (line-based reading, rewriteOk), generators; qsort modelled as stable merge sort (glibc); '
+             'the four complement classes the property text pins (NUL, no empty line, body starting with newline, CRLF) are replayed as '
+             'KNOWN-FINDING witnesses. Not covered: a label value that decodes to a newline (X-Label: =?x?Q?a=0Ab?=) - values are assumed SetOk.',
+        technique='Lean 4 proof (refinement to a line-based field list) + differential execution + spec predicate on real output'),
+    'C10': dict(
+        text='Machine-checked: searchheader on every table sorted by the case-insensitive comparator returns the first index and length of the '
+             'maximal run of equal names (C10_binary_search, all sizes and duplicate arrangements); unfolding yields one logical line '
+             '(C10_unfold); for every well-formed message and name, message_get_header returns the RFC 2047-decoded logical values of exactly '
+             'the case-insensitively equal occurrences in file order (C10_lookup, using C16_rfc2047); regcomp base flags from the regenerated '
+             'table (C10_regflags). Tied to the working tree by differential execution of the real message_parse/message_get_header/'
+             'unfoldheader against model and line-based specification.',
+        note='Trusted: Lean kernel, Spec/Message.lean, generators. POSIX regexec itself is the platform library (outside the model); the loop of '
+             'expr_eval_header over names/values and the ICASE flag are covered by the evaluator correspondence (C03 machinery), not by a '
+             'theorem yet.',
+        technique='Lean 4 proof (binary search invariant, stable sort, refinement to line-based reading) + differential execution'),
     'C11': dict(
         text='Machine-checked: for every entity whose multipart boundaries contain no newline (the RFC 2046 grammar; hypothesis BoundaryOk, '
              'decidable, shown necessary by the proved counterexample C11_parts_unrestricted_false), the Lean transcription of parseboundary/'
@@ -40,9 +63,7 @@ NOT_YET = {
     'C05': 'check under construction',
     'C06': 'check under construction',
     'C07': 'check under construction',
-    'C08': 'check under construction',
     'C09': 'check under construction',
-    'C10': 'check under construction',
     'C12': 'check under construction',
     'C13': 'check under construction',
     'C14': 'check under construction',
